@@ -18,6 +18,7 @@ type rtCase struct {
 	Op       string      `json:"op"`
 	Response interface{} `json:"response"`
 	Mutation string      `json:"mutation,omitempty"`
+	Seed     int64       `json:"seed,omitempty"`
 }
 
 func bindingFor(c *conv.Case) func(string) string {
